@@ -66,9 +66,13 @@ type Session struct {
 	dead    bool
 	seq     int
 	cvc5    bool
+	resets  int
 }
 
 var SolverPath = "z3-new"
+
+// RestartEvery: the solver process is replaced after this many paths.
+var RestartEvery = 100
 
 func NewSession(timeoutMs int) (*Session, error) {
 	s := &Session{name: SolverPath, timeout: timeoutMs}
@@ -141,6 +145,11 @@ func (s *Session) send(line string) {
 
 // Reset clears all assertions (start of a new path).
 func (s *Session) Reset() {
+	s.resets++
+	if s.resets%RestartEvery == 0 {
+		// solvers accumulate state across (reset); start a fresh process
+		s.dead = true
+	}
 	if s.dead {
 		s.Close()
 		if err := s.start(); err != nil {
